@@ -51,9 +51,9 @@ fn start_watchdog() {
                 let d = CURRENT.lock().map(|g| g.get(k).map(|x| x.1.clone()).unwrap_or_default()).unwrap_or_default();
                 println!("  signature: a public operation did not return within 10 s");
                 println!("  detail: {d}");
-                let _ = std::fs::create_dir_all("/verif/replays");
-                let _ = std::fs::write("/verif/replays/C10-hang.json", serde_json::to_string_pretty(&json!({"property": "C10", "signature": "hang", "detail": d, "case": {"kind": "hang", "desc": d}})).unwrap());
-                println!("VIOLATION property=C10 replay=/verif/replays/C10-hang.json");
+                let _ = std::fs::create_dir_all(format!("{}/replays", *crate::ctx::VERIF_DIR));
+                let _ = std::fs::write(format!("{}/replays/C10-hang.json", *crate::ctx::VERIF_DIR), serde_json::to_string_pretty(&json!({"property": "C10", "signature": "hang", "detail": d, "case": {"kind": "hang", "desc": d}})).unwrap());
+                println!("VIOLATION property=C10 replay={}/replays/C10-hang.json", *crate::ctx::VERIF_DIR);
                 std::process::exit(1);
             }
         }
